@@ -205,6 +205,26 @@ type shrinker struct {
 	budget int
 	evals  int
 	cache  map[string]bool // result per candidate text
+	// prefetch (optional) lets the oracle evaluate a group of upcoming candidates in one round trip
+	prefetch func([]*Prog)
+}
+
+// hint announces candidates that are about to be tried in this order.
+func (s *shrinker) hint(cur *Prog, qs []*Prog) {
+	if s.prefetch == nil || len(qs) < 2 {
+		return
+	}
+	var keep []*Prog
+	for _, q := range qs {
+		if cur == nil || less(measure(q), measure(cur)) {
+			if _, ok := s.cache[Render(q, asp, "")]; !ok {
+				keep = append(keep, q)
+			}
+		}
+	}
+	if len(keep) > 1 {
+		s.prefetch(keep)
+	}
 }
 
 // measure is the well-founded order that every accepted step must strictly decrease:
@@ -290,8 +310,8 @@ func (s *shrinker) try(q, cur *Prog) bool {
 
 // Shrink minimises p (which must satisfy test) and returns the smallest program found together with
 // the (possibly changed) observed variable.
-func Shrink(p *Prog, target string, budget int, test func(*Prog) bool) (*Prog, string, int) {
-	s := &shrinker{test: test, budget: budget, cache: map[string]bool{}}
+func Shrink(p *Prog, target string, budget int, prefetch func([]*Prog), test func(*Prog) bool) (*Prog, string, int) {
+	s := &shrinker{test: test, budget: budget, cache: map[string]bool{}, prefetch: prefetch}
 	cur := p.clone()
 	cur.Export = []string{target}
 	if q := staticSlice(cur, target); len(q.Stmts) < len(cur.Stmts) && s.try(q, cur) {
@@ -489,6 +509,16 @@ func (s *shrinker) deleteStmts(cur *Prog) *Prog {
 	// chunks first (halves), then single statements, last to first
 	for li := 0; li < len(stmtLists(cur)); li++ {
 		n := len(*stmtLists(cur)[li])
+		var qs []*Prog
+		for size := n / 2; size >= 1; size /= 2 {
+			for start := n - size; start >= 0; start -= size {
+				q := cur.clone()
+				l := stmtLists(q)[li]
+				*l = append(append([]*Node(nil), (*l)[:start]...), (*l)[start+size:]...)
+				qs = append(qs, q)
+			}
+		}
+		s.hint(cur, qs)
 		for size := n / 2; size >= 1; size /= 2 {
 			for start := n - size; start >= 0; start -= size {
 				q := cur.clone()
@@ -708,9 +738,13 @@ func (s *shrinker) hoistExprs(cur *Prog) *Prog {
 		if n.K == "list" && len(n.C) > 0 {
 			cands = append(cands, &Node{K: "list", C: []*Node{iLit(0)}}, &Node{K: "list", C: []*Node{iLit(1), iLit(0)}}, &Node{K: "list", C: []*Node{iLit(0), iLit(1)}})
 		}
-		for _, c := range cands {
-			q := cur.clone()
-			*exprSlots(q)[i] = c.clone()
+		qs := make([]*Prog, len(cands))
+		for j, c := range cands {
+			qs[j] = cur.clone()
+			*exprSlots(qs[j])[i] = c.clone()
+		}
+		s.hint(cur, qs)
+		for _, q := range qs {
 			if s.try(q, cur) {
 				cur = q
 				i--
@@ -799,9 +833,14 @@ func (s *shrinker) canonLiterals(cur *Prog) *Prog {
 		if n.K != "int" && n.K != "str" {
 			continue
 		}
+		var qs []*Prog
 		for _, c := range literalCandidates(n) {
 			q := cur.clone()
 			*exprSlots(q)[i] = c
+			qs = append(qs, q)
+		}
+		s.hint(cur, qs)
+		for _, q := range qs {
 			if s.try(q, cur) {
 				cur = q
 				break
